@@ -36,11 +36,11 @@ UNIT['stubs'] = {
         'params': 'struct BuildDB *self',
         # every commit point is consistent: if the build may have stored results stamped with the new epoch, that epoch has been
         # handed to the database in the same transaction before the commit
-        'requires': [('P:C04', 'g_txn_open'), ('P:C04,P:C01,P:C05', 'g_exec_calls != 0 ==> (g_iter_calls == 1 && g_iter_value == g_engine->currentEpoch)')],
+        'requires': [('P:C04', 'g_txn_open'), ('P:C04,P:C01,P:C05,P:C03', 'g_exec_calls != 0 ==> (g_iter_calls == 1 && g_iter_value == g_engine->currentEpoch)')],
         'assigns': ['g_txn_open'], 'ensures': ['!g_txn_open']},
     'BuildDB_setCurrentIteration': {
         'ret': '_Bool', 'params': 'struct BuildDB *self, uint64_t value, vstr *error_out',
-        'requires': [('P:C04', 'g_txn_open && self == g_engine->db'), ('P:C01,P:C04', 'value == g_engine->currentEpoch && g_exec_calls == 1')],
+        'requires': [('P:C04', 'g_txn_open && self == g_engine->db'), ('P:C01,P:C04,P:C03', 'value == g_engine->currentEpoch && g_exec_calls == 1')],
         'assigns': ['g_iter_calls', 'g_iter_value'], 'ensures': ['g_iter_calls == OLD(g_iter_calls) + 1 && g_iter_value == value', '(RESULT != 0) == (g_iter_ok != 0)']},
     'BuildEngineDelegate_createExecutionQueue': {
         'ret': 'struct ExecutionQueue *', 'params': 'struct BuildEngineDelegate *self', 'assigns': [],
